@@ -80,7 +80,7 @@ func CoqBytes(b []byte) string {
 		}
 		return segs[0]
 	}
-	return "(" + strings.Join(segs, " ++ ") + ")"
+	return "(" + strings.Join(segs, " ++ ") + ")%list" // %list: inside `Some (…)` the ++ would otherwise be read in string_scope
 }
 
 // byteList: explicit constructor list — Coq ingests it about four times faster than a hex string.
@@ -98,7 +98,7 @@ func byteList(b []byte) string {
 			}
 			parts = append(parts, byteList(b[i:j]))
 		}
-		return "(" + strings.Join(parts, " ++ ") + ")"
+		return "(" + strings.Join(parts, " ++ ") + ")%list"
 	}
 	var sb strings.Builder
 	sb.WriteByte('[')
